@@ -6,6 +6,7 @@ import (
 	"go/constant"
 	"go/token"
 	"go/types"
+	"sort"
 	"strings"
 )
 
@@ -38,6 +39,10 @@ type trConf struct {
 	returns map[string]string
 	prelude string // Lean declarations the definition needs (result type)
 	typeParam string // Lean type a Go type parameter is instantiated with (generic functions)
+	// stmts: effectful statements (store reads / writes and their error results) -> the Lean statements that stand for
+	// them; init: Lean statements in front of the body (declarations of the variables `stmts` assign)
+	stmts map[string][]string
+	init  []string
 }
 
 var trConfs = []trConf{
@@ -45,6 +50,31 @@ var trConfs = []trConf{
 		params: []trParam{{"d", "Int"}}},
 	{key: "x/valset/keeper.calculateJailSentenceResetThreshold", lean: "calculateJailSentenceResetThreshold", ret: "Int",
 		params: []trParam{{"d", "Int"}}},
+	{key: "x/skyway/keeper.Keeper.TryAttestation", lean: "tryAttestation", ret: "AttOutcome",
+		prelude: "/-- what `TryAttestation` decides: `error c` = it returned an error (1 a store / codec failure, 2 the remote height was refused,\n    3 the claim is out of order, 4 the observation event could not be emitted AFTER the claim was applied, 9 already observed),\n    `pending` = not enough voting power yet, `observed` = marked observed and handed to the handler -/\ninductive AttOutcome where\n  | error (code : Nat) | pending | observed\nderiving DecidableEq, Repr",
+		params: []trParam{{"alreadyObserved", "Bool"}, {"totalPower", "Int"}, {"votes", "List Nat"}, {"power", "Nat → Int"},
+			{"lastNonce", "UInt64"}, {"claimNonce", "UInt64"}, {"heightRefused", "Bool"}, {"eventFails", "Bool"}},
+		init: []string{"let mut err : Nat := 0", "let mut becameObserved : Bool := false", "let mut lastSkywayNonce : UInt64 := 0"},
+		atoms: map[string]string{"att.Observed": "alreadyObserved", "att.Votes": "votes", "err != nil": "err != 0",
+			"math.NewInt(validatorPower)": "power validator", "claim.GetSkywayNonce()": "claimNonce",
+		},
+		skip: []string{"claim, err := k.UnpackAttestationClaim(att)", "hash, err := claim.ClaimHash()",
+			"val, err := utilkeeper.ValAddressFromBech32(k.AddressCodec, validator)",
+			"validatorPower, err := k.StakingKeeper.GetLastValidatorPower(ctx, val)",
+			"totalPower, err := k.StakingKeeper.GetLastTotalPower(ctx)",
+			"k.SetAttestation(ctx, claim.GetChainReferenceId(), claim.GetSkywayNonce(), hash, att)"},
+		stmts: map[string][]string{
+			"lastSkywayNonce, err := k.GetLastObservedSkywayNonce(ctx, claim.GetChainReferenceId())": {"lastSkywayNonce := lastNonce"},
+			"err = k.SetLastObservedEthereumBlockHeight(ctx, claim.GetChainReferenceId(), claim.GetEthBlockHeight())": {"err := if heightRefused then 2 else 0"},
+			"err = k.setLastObservedSkywayNonce(ctx, claim.GetChainReferenceId(), claim.GetSkywayNonce())":            {"err := 0"},
+			"att.Observed = true":                    {"becameObserved := true"},
+			"err = k.processAttestation(ctx, att, claim)": {"err := 0"},
+			"err = k.emitObservedEvent(ctx, att, claim)":  {"err := if eventFails then 4 else 0"},
+		},
+		returns: map[string]string{"return fmt.Errorf(\"could not cast to claim\")": ".error 1", "return fmt.Errorf(\"unable to compute claim hash\")": ".error 1",
+			"return err": ".error err", "return fmt.Errorf(\"attempting to apply events to state out of order\")": ".error 3",
+			"return fmt.Errorf(\"attempting to process observed attestation\")": ".error 9",
+			"return nil": "if becameObserved then .observed else .pending"}},
 	{key: "util/palomath.Median", lean: "median", ret: "UInt64", typeParam: "UInt64",
 		// `w` is the sorted copy of `s` (make / copy / slices.Sort are library calls): it enters as a parameter and the
 		// theorem instantiates it with the sorted list
@@ -107,6 +137,72 @@ type trCtx struct {
 	err  string
 	// locals of struct type, flattened to one variable per translatable field
 	structLocals map[string][]string
+	// loops that leave early (break / return that is not the search idiom) become structurally recursive helper
+	// definitions over the list; while a loop body is being translated `loop` describes it
+	helpers []string
+	loop    *trLoop
+	nLoops  int
+	varType map[string]string // Lean types of the mutable variables seen so far
+}
+
+type trLoop struct {
+	name  string   // helper definition
+	args  string   // the enclosing function's parameters, to pass along
+	muts  []string // mutable variables the body assigns
+	rest  string   // name of the tail of the list
+}
+
+func (l *trLoop) again() string { return "return (" + l.name + " " + l.args + " " + strings.Join(l.muts, " ") + " " + l.rest + ")" }
+func (l *trLoop) fell() string  { return "return .ok (" + strings.Join(l.muts, ", ") + ")" }
+
+// does the statement list contain a break, a continue or a return (at any depth, not inside a nested loop)?
+func leavesEarly(stmts []ast.Stmt) bool {
+	found := false
+	for _, st := range stmts {
+		ast.Inspect(st, func(n ast.Node) bool {
+			switch n.(type) {
+			case *ast.BranchStmt, *ast.ReturnStmt:
+				found = true
+			case *ast.RangeStmt, *ast.ForStmt, *ast.FuncLit:
+				return false
+			}
+			return !found
+		})
+	}
+	return found
+}
+
+// variables assigned (not defined) in the statements, in order of first assignment
+func assignedVars(stmts []ast.Stmt, conf trConf) []string {
+	var out []string
+	seen := map[string]bool{}
+	add := func(n string) {
+		if !seen[n] {
+			seen[n] = true
+			out = append(out, n)
+		}
+	}
+	for _, st := range stmts {
+		ast.Inspect(st, func(n ast.Node) bool {
+			if repl, ok := conf.stmts[src(n)]; ok {
+				for _, l := range repl {
+					if i := strings.Index(l, " := "); i > 0 && !strings.HasPrefix(l, "let ") {
+						add(strings.TrimSpace(l[:i]))
+					}
+				}
+				return false
+			}
+			if as, ok := n.(*ast.AssignStmt); ok && as.Tok != token.DEFINE {
+				for _, l := range as.Lhs {
+					if id, ok := l.(*ast.Ident); ok {
+						add(id.Name)
+					}
+				}
+			}
+			return true
+		})
+	}
+	return out
 }
 
 func (c *trCtx) fail(format string, a ...interface{}) string {
@@ -254,6 +350,17 @@ func (c *trCtx) expr(e ast.Expr) string {
 		}
 		return c.fail("binary %s", x.Op)
 	case *ast.SelectorExpr:
+		// pkg.Var where the variable is initialised with `math.NewInt(<constant>)`: its value
+		if v, ok := c.fi.pkg.TypesInfo.Uses[x.Sel].(*types.Var); ok && v.Pkg() != nil && v.Parent() == v.Pkg().Scope() {
+			if vi, ok := c.w.varInit[v]; ok {
+				if ce, ok := vi.expr.(*ast.CallExpr); ok && len(ce.Args) == 1 && (src(ce.Fun) == "math.NewInt" || src(ce.Fun) == "sdkmath.NewInt") {
+					if tv, ok := vi.pkg.TypesInfo.Types[ce.Args[0]]; ok && tv.Value != nil && tv.Value.Kind() == constant.Int {
+						return "(" + tv.Value.ExactString() + " : Int)"
+					}
+				}
+			}
+			return c.fail("package variable %s", text)
+		}
 		if id, ok := x.X.(*ast.Ident); ok {
 			if fields, ok := c.structLocals[id.Name]; ok {
 				for _, f := range fields {
@@ -341,6 +448,13 @@ func (c *trCtx) expr(e ast.Expr) string {
 	return c.fail("expression %s", text)
 }
 
+func (c *trCtx) noteType(name, lt string) {
+	if c.varType == nil {
+		c.varType = map[string]string{}
+	}
+	c.varType[name] = lt
+}
+
 func (c *trCtx) zero(t types.Type) string {
 	switch c.leanType(t) {
 	case "UInt64", "Int":
@@ -365,7 +479,30 @@ func (c *trCtx) block(stmts []ast.Stmt, ind string, out *[]string) {
 		if skipped {
 			continue
 		}
+		if repl, ok := c.conf.stmts[text]; ok {
+			for _, l := range repl {
+				emit(l)
+			}
+			continue
+		}
 		switch s := st.(type) {
+		case *ast.BranchStmt:
+			switch s.Tok {
+			case token.BREAK:
+				if c.loop != nil {
+					emit(c.loop.fell())
+				} else {
+					emit("break")
+				}
+			case token.CONTINUE:
+				if c.loop != nil {
+					emit(c.loop.again())
+				} else {
+					emit("continue")
+				}
+			default:
+				c.fail("branch statement %s", text)
+			}
 		case *ast.DeclStmt:
 			gd, ok := s.Decl.(*ast.GenDecl)
 			if !ok || gd.Tok != token.VAR {
@@ -401,6 +538,7 @@ func (c *trCtx) block(stmts []ast.Stmt, ind string, out *[]string) {
 						val = c.expr(vs.Values[i])
 					}
 					emit(fmt.Sprintf("let mut %s : %s := %s", n.Name, lt, val))
+					c.noteType(n.Name, lt)
 				}
 			}
 		case *ast.AssignStmt:
@@ -449,6 +587,13 @@ func (c *trCtx) block(stmts []ast.Stmt, ind string, out *[]string) {
 			r := c.expr(s.Rhs[0])
 			switch s.Tok {
 			case token.DEFINE:
+				if tv, ok := c.fi.pkg.TypesInfo.Types[s.Rhs[0]]; ok {
+					if lt := c.leanType(tv.Type); lt != "" {
+						c.noteType(id.Name, lt)
+						emit(fmt.Sprintf("let mut %s : %s := %s", id.Name, lt, r))
+						continue
+					}
+				}
 				emit(fmt.Sprintf("let mut %s := %s", id.Name, r))
 			case token.ASSIGN:
 				emit(fmt.Sprintf("%s := %s", id.Name, r))
@@ -484,14 +629,22 @@ func (c *trCtx) block(stmts []ast.Stmt, ind string, out *[]string) {
 					c.fail("return statement without a configured meaning: %s", text)
 					continue
 				}
-				emit("return " + t)
+				if c.loop != nil {
+					emit("return .error (" + t + ")")
+				} else {
+					emit("return " + t)
+				}
 				continue
 			}
 			if len(s.Results) != 1 {
 				c.fail("return with %d results", len(s.Results))
 				continue
 			}
-			emit("return " + c.expr(s.Results[0]))
+			if c.loop != nil {
+				emit("return .error (" + c.expr(s.Results[0]) + ")")
+			} else {
+				emit("return " + c.expr(s.Results[0]))
+			}
 		case *ast.RangeStmt:
 			if s.Key != nil && src(s.Key) != "_" {
 				c.fail("range with an index variable: %s", src(s.Key))
@@ -512,6 +665,79 @@ func (c *trCtx) block(stmts []ast.Stmt, ind string, out *[]string) {
 						continue
 					}
 				}
+			}
+			if leavesEarly(s.Body.List) {
+				if c.loop != nil {
+					c.fail("nested loop with early exit")
+					continue
+				}
+				c.nLoops++
+				var pnames, pdecls []string
+				for _, p := range c.conf.params {
+					pnames = append(pnames, p.name)
+					pdecls = append(pdecls, fmt.Sprintf("(%s : %s)", p.name, p.typ))
+				}
+				// everything declared before the loop that the body reads or assigns travels along: assigned ones as
+				// the loop state, the others as extra parameters
+				muts := assignedVars(s.Body.List, c.conf)
+				isMut := map[string]bool{}
+				var mdecls, mtypes []string
+				for _, m := range muts {
+					t, ok := c.varType[m]
+					if !ok {
+						c.fail("type of loop variable %s unknown", m)
+					}
+					isMut[m] = true
+					mdecls = append(mdecls, fmt.Sprintf("(%s : %s)", m, t))
+					mtypes = append(mtypes, t)
+				}
+				var extra []string
+				for name := range c.varType {
+					if !isMut[name] && strings.Contains(" "+src(s.Body)+" ", name) {
+						extra = append(extra, name)
+					}
+				}
+				sort.Strings(extra)
+				for _, e := range extra {
+					pnames = append(pnames, e)
+					pdecls = append(pdecls, fmt.Sprintf("(%s : %s)", e, c.varType[e]))
+				}
+				lp := &trLoop{name: fmt.Sprintf("%s_loop%d", c.conf.lean, c.nLoops), args: strings.Join(pnames, " "), muts: muts, rest: "rest__"}
+				elemT := "Nat"
+				if tv, ok := c.fi.pkg.TypesInfo.Types[s.X]; ok {
+					if sl, ok := tv.Type.Underlying().(*types.Slice); ok {
+						if lt := c.leanType(sl.Elem()); lt != "" {
+							elemT = lt
+						}
+					}
+				}
+				var body []string
+				for _, m := range muts {
+					body = append(body, fmt.Sprintf("    let mut %s := %s", m, m))
+				}
+				saved := c.loop
+				c.loop = lp
+				c.block(s.Body.List, "    ", &body)
+				c.loop = saved
+				body = append(body, "    "+lp.again())
+				stateT := strings.Join(mtypes, " × ")
+				if len(mtypes) == 0 {
+					stateT = "Unit"
+				}
+				h := fmt.Sprintf("/-- loop %d of `%s` as a recursion over the list: `.error r` = the function returned `r` from inside the loop,\n    `.ok state` = the loop ended (ran out, or `break`) with these values of the variables it assigns -/\n", c.nLoops, c.conf.key)
+				h += fmt.Sprintf("def %s %s %s : List %s → Except %s (%s)\n  | [] => .ok (%s)\n  | %s :: rest__ => Id.run do\n%s\n",
+					lp.name, strings.Join(pdecls, " "), strings.Join(mdecls, " "), elemT, c.conf.ret, stateT, strings.Join(muts, ", "), v, strings.Join(body, "\n"))
+				c.helpers = append(c.helpers, h)
+				emit(fmt.Sprintf("match %s %s %s (%s) with", lp.name, lp.args, strings.Join(muts, " "), c.expr(s.X)))
+				emit("| .error r__ => return r__")
+				emit(fmt.Sprintf("| .ok (%s) =>", strings.Join(prime(muts), ", ")))
+				for _, m := range muts {
+					emit(fmt.Sprintf("  %s := %s'", m, m))
+				}
+				if len(muts) == 0 {
+					emit("  pure ()")
+				}
+				continue
 			}
 			emit(fmt.Sprintf("for %s in %s do", v, c.expr(s.X)))
 			c.block(s.Body.List, ind+"  ", out)
@@ -555,6 +781,14 @@ func (c *trCtx) block(stmts []ast.Stmt, ind string, out *[]string) {
 	}
 }
 
+func prime(xs []string) []string {
+	out := make([]string, len(xs))
+	for i, x := range xs {
+		out[i] = x + "'"
+	}
+	return out
+}
+
 func genTranslated(w *world) {
 	var b strings.Builder
 	b.WriteString("set_option linter.unusedVariables false\n\nnamespace Paloma.Gen.Translated\n\n")
@@ -567,6 +801,13 @@ func genTranslated(w *world) {
 		}
 		c := &trCtx{w: w, fi: fi, conf: conf}
 		var lines []string
+		for _, l := range conf.init {
+			lines = append(lines, "  "+l)
+			// `let mut x : T := v`
+			if f := strings.Fields(l); len(f) >= 6 && f[0] == "let" && f[1] == "mut" && f[3] == ":" {
+				c.noteType(f[2], f[4])
+			}
+		}
 		c.block(fi.decl.Body.List, "  ", &lines)
 		if c.err != "" {
 			status = append(status, fmt.Sprintf("  (%s, %s)", leanStr(conf.key), leanStr("untranslatable: "+c.err)))
@@ -580,6 +821,9 @@ func genTranslated(w *world) {
 		}
 		if conf.prelude != "" {
 			b.WriteString(conf.prelude + "\n\n")
+		}
+		for _, h := range c.helpers {
+			b.WriteString(h + "\n")
 		}
 		fmt.Fprintf(&b, "/-- translated from `%s` (%s) -/\n", conf.key, posOf(fi.decl.Pos()))
 		fmt.Fprintf(&b, "def %s %s : %s := Id.run do\n%s\n\n", conf.lean, strings.Join(ps, " "), conf.ret, strings.Join(lines, "\n"))
